@@ -12,6 +12,7 @@ import (
 	"sort"
 	"strconv"
 	"strings"
+	"sync"
 
 	"github.com/apache/skywalking-banyandb/api/common"
 	modelv1 "github.com/apache/skywalking-banyandb/api/proto/banyandb/model/v1"
@@ -357,11 +358,59 @@ type sidxResult struct {
 	outcome string
 	nontriv bool
 	obs     map[string][]string
+	calls   int // in-flight variant: number of context lookups the chosen query made (= its hold points)
+}
+
+// sidxInflight (round 2): the last element of a history may be "@<query>@<n>:<op>": the maintenance half <op> (fB, xB,
+// mB) is not applied before the oracle runs but WHILE query <query> is in flight: the query gets a context whose Value
+// method (the seam: query.GetTracer(ctx) is looked up by QuerySync before and after it takes its snapshot reference, and by
+// every later stage) applies <op> at its n-th call (n < 0: never, calls are only counted).
+type sidxInflight struct {
+	q     string
+	op    string
+	at    int
+	calls int
+	fire  func()
+	mu    sync.Mutex
+}
+
+type sidxHookCtx struct {
+	context.Context
+	inf *sidxInflight
+}
+
+func (c *sidxHookCtx) Value(key any) any {
+	inf := c.inf
+	inf.mu.Lock() // some lookups are made by the query's scanner goroutine
+	defer inf.mu.Unlock()
+	n := inf.calls
+	inf.calls++
+	if n == inf.at && inf.fire != nil {
+		f := inf.fire
+		inf.fire = nil
+		f()
+	}
+	return c.Context.Value(key)
+}
+
+func parseInflight(op string) *sidxInflight {
+	f := strings.SplitN(op[1:], "@", 2)
+	g := strings.SplitN(f[1], ":", 2)
+	n, err := strconv.Atoi(g[0])
+	if err != nil {
+		panic("bad in-flight op " + op)
+	}
+	return &sidxInflight{q: f[0], at: n, op: g[1]}
 }
 
 func executeSidx(dir string, h []string) (res sidxResult) {
 	var real *sidxReal
 	cur := ""
+	var inf *sidxInflight
+	if n := len(h); n > 0 && strings.HasPrefix(h[n-1], "@") {
+		inf = parseInflight(h[n-1])
+		h = h[:n-1]
+	}
 	defer func() {
 		if r := recover(); r != nil {
 			s := fmt.Sprint(r)
@@ -458,8 +507,22 @@ func executeSidx(dir string, h []string) (res sidxResult) {
 		}
 	}
 	// ---- queries
+	stateLast := last
 	for _, q := range sidxQueries {
 		cur = "query " + q.name
+		last = stateLast
+		ctx := context.Background()
+		if inf != nil && inf.q == q.name {
+			last = stateLast + ", in flight across " + opKind(inf.op)
+			inf.fire = func() {
+				if !m.step(inf.op) {
+					panic("in-flight half not applicable in the model: " + inf.op)
+				}
+				real.apply(inf.op, m)
+				stateLast = opKind(inf.op)
+			}
+			ctx = &sidxHookCtx{Context: ctx, inf: inf}
+		}
 		req := sidx.QueryRequest{MinKey: q.minKey, MaxKey: q.maxKey, MinTimestamp: q.minTS, MaxTimestamp: q.maxTS, TagProjection: proj}
 		for _, sid := range q.sids {
 			req.SeriesIDs = append(req.SeriesIDs, common.SeriesID(sid))
@@ -467,7 +530,11 @@ func executeSidx(dir string, h []string) (res sidxResult) {
 		if q.desc {
 			req.Order = &index.OrderBy{Sort: modelv1.Sort_SORT_DESC}
 		}
-		resp, err := s.QuerySync(context.Background(), req)
+		resp, err := s.QuerySync(ctx, req)
+		if inf != nil && inf.q == q.name {
+			res.calls = inf.calls
+			inf.fire = nil
+		}
 		if err != nil {
 			res.viol = append(res.viol, viol{Key: fmt.Sprintf("sidx: query %s after %s: error %s", q.name, last, numRe.ReplaceAllString(err.Error(), "#")), Detail: err.Error()})
 			continue
